@@ -167,6 +167,30 @@ def run(run):
                             run.violation("C07:run-to-run-difference", "two scans of the same %d-file project differ (GOMAXPROCS=%d)" % (nf, procs), dict(nfiles=nf, procs=procs))
             finally:
                 shutil.rmtree(root, ignore_errors=True)
+        # ---- projects of many small files (hundreds to thousands): every file is merged, the scan ends
+        for nf in ([450, 1300] if quick else [250, 450, 650, 1300, 2600]):
+            root = C.scratch("c07big")
+            try:
+                for i in range(nf):
+                    dname = os.path.join(root, "p%02d" % (i % 17))
+                    os.makedirs(dname, exist_ok=True)
+                    with open(os.path.join(dname, "T%d.java" % i), "w") as f:
+                        f.write("package p%02d;\nclass T%d { int f%d; void m%d() { f%d = %d; } }\n" % (i % 17, i, i, i, i, i))
+                for procs in ([0] if quick else [1, 16]):
+                    r = h.call(op="scan-order", dir=root, graph="g", order=[], procs=procs, timeout=120)
+                    run.count(("many-files", nf, procs))
+                    stats["many_file_scans"] += 1
+                    if r.get("outcome") != "ok":
+                        run.violation("C07:scan-" + str(r.get("outcome")), "scan of %d small files ends with %s (no result within 120 s)" % (nf, r.get("outcome")), dict(nfiles=nf, procs=procs))
+                        if r.get("outcome") in ("died", "hang"):
+                            h = C.Harness()
+                        continue
+                    seen = {n["file"] for n in r["nodes"]}
+                    classes = sum(1 for n in r["nodes"] if n["type"] == "class_declaration")
+                    if len(seen) != nf or classes != nf:
+                        run.violation("C07:files-lost", "%d files scanned but entities of %d files (%d classes) reported" % (nf, len(seen), classes), dict(nfiles=nf, procs=procs))
+            finally:
+                shutil.rmtree(root, ignore_errors=True)
         # ---- good files interleaved with entries that cannot be read (dangling links): which worker meets which
         #      faulty entry depends on the schedule; the good files' results must not
         for nf in ([8] if quick else [3, 8, 20, 45]):
